@@ -1,0 +1,29 @@
+//go:build verif
+
+package randstr
+
+import "sync"
+
+var (
+	verifMu sync.Mutex
+	// VerifNext, when set by the verification harness, may supply the next "random" string.
+	VerifNext func(length int) (string, bool)
+)
+
+// SetVerifNext installs (or removes, with nil) the override.
+func SetVerifNext(f func(length int) (string, bool)) {
+	verifMu.Lock()
+	VerifNext = f
+	verifMu.Unlock()
+}
+
+func verifNext(length int) (string, bool) {
+	verifMu.Lock()
+	f := VerifNext
+	verifMu.Unlock()
+	if f == nil {
+		return "", false
+	}
+
+	return f(length)
+}
